@@ -47,10 +47,14 @@ ModelFaults == {"SibBase5NoDisp", "Mod1Disp4", "ImmIgnores66"}
 \*    string is attributed to a known finding iff the specification WITH that deviation reproduces what
 \*    amoco reported (X86LenTrace.Judge); anything else is an unattributed violation.
 
+\* known amoco deviations, in attribution order
+AmocoDevs == <<"X64_A32_SibBase5_NoDisp32", "X64_66_RexW_Imm16">>
+AmocoDevSet == {AmocoDevs[k] : k \in DOMAIN AmocoDevs}
+
 Init0(mode, dev) ==
   [mode |-> mode, dev |-> dev, st |-> "Prefix", pos |-> 0, npfx |-> 0,
    p66 |-> FALSE, p67 |-> FALSE, pc |-> "n", seg |-> FALSE, lock |-> FALSE, nrep |-> 0,
-   rex |-> -1, opsize |-> 32, adsize |-> mode, map |-> 1,
+   rex |-> -1, opsize |-> 32, adsize |-> mode, map |-> 1, op |-> -1,
    aid |-> 0, kind |-> "x", mod |-> -1, rm |-> -1, sib |-> -1,
    ndisp |-> 0, nimm |-> 0, dpos |-> 0, ipos |-> 0, br |-> FALSE]
 
@@ -125,7 +129,10 @@ PrefixStep(s, b) ==
 AfterOpcode(s, op) ==
   LET id == OpId(s.mode, s.map, op)
       a == Attr(id)
-      t == [s EXCEPT !.pos = @ + 1, !.aid = id, !.opsize = OpSize(s), !.adsize = AdSize(s)] IN
+      \* the opcode byte itself is remembered only while reproducing an amoco deviation (the class walk must
+      \* not distinguish opcodes with the same attributes)
+      t == [s EXCEPT !.pos = @ + 1, !.aid = id, !.opsize = OpSize(s), !.adsize = AdSize(s),
+                     !.op = IF s.dev \in AmocoDevSet THEN op ELSE -1] IN
   CASE a.k = "x" -> Out(t)
     [] a.k = "p" -> Out(t)
     [] a.k = "n" -> LET kd == a.imm[PcIdx(s)] IN
@@ -174,7 +181,9 @@ StepOn(s, b) ==
 DevImm(s) ==
   CASE \* amoco x64/spec_ia32e.py: handlers that compute  immsz = misc["opdsz"] or 32  and let REX.W widen only
        \* the operand: with 66 and REX.W together the immediate is read as 16 bits (references: REX.W wins, 32)
-       s.dev = "X64_66_RexW_Imm16" /\ s.mode = 64 /\ s.p66 /\ s.rex >= 8 /\ s.kind = "iz" -> 2
+       \* rows: 05 0D 15 1D 25 2D 35 3D A9 (op eAX, imm), 68 (PUSH imm), E8 E9 (CALL / JMP rel)
+       s.dev = "X64_66_RexW_Imm16" /\ s.mode = 64 /\ s.p66 /\ s.rex >= 8 /\ s.kind = "iz" /\ s.map = 1
+         /\ s.op \in {5, 13, 21, 29, 37, 45, 53, 61, 169, 104, 232, 233} -> 2
     [] OTHER -> -1
 
 \* states that consume a run of free bytes (or nothing)
@@ -206,8 +215,7 @@ Run(s, bytes) ==
 Decode(bytes, mode) == Run(Init0(mode, Dev), bytes)
 DecodeDev(bytes, mode, dev) == Run(Init0(mode, dev), bytes)
 
-\* known amoco deviations, in attribution order
-AmocoDevs == <<"X64_A32_SibBase5_NoDisp32", "X64_66_RexW_Imm16">>
+
 
 \* displacement of a relative branch as four 16-bit limbs (little endian) of the 64-bit two's complement
 DispLimbs(bytes, d) ==
